@@ -16,6 +16,7 @@ import (
 	"github.com/gorilla/mux"
 
 	"github.com/dtn7/dtn7-go/pkg/bpv7"
+	"github.com/dtn7/dtn7-go/pkg/verifhook"
 )
 
 // RestAgent is a RESTful Application Agent for simple bundle dispatching.
@@ -136,6 +137,7 @@ func (ra *RestAgent) receiveBundleMessage(msg BundleMessage) {
 		} else {
 			bundles = append(val.([]bpv7.Bundle), msg.Bundle)
 		}
+		verifhook.At("agent.rest.deliver")
 
 		ra.mailbox.Store(uuid, bundles)
 
@@ -219,6 +221,7 @@ func (ra *RestAgent) handleFetch(w http.ResponseWriter, r *http.Request) {
 	} else if val, ok := ra.mailbox.Load(fetchRequest.UUID); ok {
 		log.WithField("uuid", fetchRequest.UUID).Info("REST client fetches bundles")
 		fetchResponse.Bundles = val.([]bpv7.Bundle)
+		verifhook.At("agent.rest.fetch")
 
 		ra.mailbox.Delete(fetchRequest.UUID)
 	} else if !ok {
